@@ -40,7 +40,15 @@ def cases(tier, seed):
 
 def materialise(case):
     if case["kind"] == "assembly":
-        return _embedded.materialise_assembly(case)
+        m = _embedded.materialise_assembly(case)
+        # own stream: one feature in six has fuzzy end points (<5, >8, (5.8), 5^8, one-of(5,8)); they denote the same
+        # nucleotides as exact positions and are inherited like any other feature
+        rf = gen.rng_for(case["seed"], PROP, "fuzzy", case["enzyme"], case["i"])
+        for s in [m["vector"]] + m["modules"]:
+            for f in s["features"]:
+                if rf.random() < 0.17:
+                    f["fuzzy"] = gen.fuzzy_kinds(rf, len(f["parts"]))
+        return m
     return case
 
 
